@@ -434,6 +434,7 @@ func cmdProp(args []string) int {
 	// violations vs known findings
 	violations := 0
 	var vlist []map[string]string
+	var knownList []map[string]string
 	for _, r := range failed {
 		known := false
 		for _, f := range findings {
@@ -443,6 +444,7 @@ func cmdProp(args []string) int {
 			if ok, _ := regexp.MatchString(f.Obligation, r.Obl.Name); ok {
 				fmt.Printf("KNOWN-FINDING: property=%s %s (%s)\n", ps.ID, f.What, r.Obl.Name)
 				known = true
+				knownList = append(knownList, map[string]string{"obligation": r.Obl.Name, "status": r.Status, "what": f.What})
 				break
 			}
 		}
@@ -515,8 +517,11 @@ func cmdProp(args []string) int {
 	ev := Evidence{PropertyID: ps.ID, Tier: *tier, Seed: seed, Level: "proof", WallS: round3(time.Since(t0).Seconds()), Violations: violations,
 		Assumptions: assumptions,
 		Coverage: map[string]interface{}{
-			"obligations":              len(results),
+			// the proof claim covers every obligation except those recorded as open known findings, which
+			// are checked on every run, expected to fail and listed separately
+			"obligations":              len(results) - len(knownList),
 			"discharged":               discharged,
+			"known_findings_checked":   knownList,
 			"checker_cmd":              fmt.Sprintf("bin/govc prop -p %s -tier %s (VC generation over go/ssa of /repo working tree; solvers z3-new 5.1.0, z3 4.8.12, cvc5 1.0.3; per-obligation timeout %d ms)", ps.ID, *tier, timeout),
 			"trusted_base":             tb,
 			"samples":                  samples,
@@ -537,7 +542,11 @@ func cmdProp(args []string) int {
 	for i := 0; i < 3 && i < len(results); i++ {
 		fmt.Printf("    slowest: %6.2fs %s [%s]\n", results[i].Time, results[i].Obl.Name, results[i].Status)
 	}
-	fmt.Printf("property %s tier %s: %d/%d obligations discharged over %d functions, %d violation(s), %.1fs\n", ps.ID, *tier, discharged, len(results), len(ps.Functions), violations, time.Since(t0).Seconds())
+	kf := ""
+	if len(knownList) > 0 {
+		kf = fmt.Sprintf(" (+%d open known finding(s), checked and still failing)", len(knownList))
+	}
+	fmt.Printf("property %s tier %s: %d/%d obligations discharged%s over %d functions, %d violation(s), %.1fs\n", ps.ID, *tier, discharged, len(results)-len(knownList), kf, len(ps.Functions), violations, time.Since(t0).Seconds())
 	if violations > 0 {
 		return 1
 	}
